@@ -683,8 +683,17 @@ pub fn spaces(tier: Tier) -> Vec<Space> {
                     return;
                 }
             };
+            let mut ref_ok = ref_ok;
             if !(27..=34).contains(&bad[0]) {
+                // The statement fixes the eight headers the library writes (27 + recovery id + 4 * compressed); what another
+                // header byte means, if the parser takes it at all, is not prescribed (BIP137 reads 35..=42 as further
+                // address types with the same recovery data). The verdict is then judged on what the parser says it read:
+                // the parsed signature's own canonical compact form (negative control C06-n9-2; a false alarm before).
                 acc.bump("compact_header_outside_27_34_accepted_by_parser", 1);
+                match guard(|| sig2.to_compact_bytes(None)) {
+                    Ok(norm) if norm.len() == 65 && (27..=34).contains(&norm[0]) => ref_ok = ref_accepts(&norm, &z, &row.h160[comp as usize]),
+                    _ => {}
+                }
             }
             let Some(addr) = lib_address(acc, row, comp, prefix) else { return };
             let mut vv = V { acc, case, input: &input };
